@@ -137,4 +137,19 @@ PROPS = {
         quick=dict(checks=300, timeout=900),
         thorough=dict(checks=1200, shards=16, timeout=3000),
     ),
+    "C17": dict(
+        run="^TestC17$",
+        level="exploration",
+        rule=("(i)+(ii) a generated subscription configuration (every optional block absent / empty / filled: labels, filter, ordering, retention and TTL from 1 ns to 100 years with nanosecond "
+              "fractions, retry policy halves, dead-letter policy, push endpoint) is created and then updated 0-5 times with random mask subsets of the 8 updatable paths (sometimes adding a "
+              "forbidden or unknown path, first or last); after every step GetSubscription and ListSubscriptions must equal the model of the stored configuration (documented defaults filled "
+              "in, only masked fields changed, a bad path changes nothing); topics likewise for labels; (iii) codec: edge-biased durations through Interval.Value -> Scan and JSON, and "
+              "PostgreSQL-style interval strings from an independent formatter (years/mons/days, signs, singular/plural, optional time part, 1-9 fraction digits) against the reference value; "
+              "non-trivial = configuration with >=3 non-default blocks or a mask of >=2 paths applied after another update; duration not a whole second; interval string with >=2 unit fields; "
+              "distinct by hash of the request sequence / value"),
+        assumptions=["ack_deadline_seconds is a derived field and not compared", "absent and empty retry policy / labels are equivalent", "negative durations are C16's domain, not generated here",
+                     "storage exactness is for the SQLite text encoding; PostgreSQL's microsecond rounding cannot be observed here"],
+        quick=dict(checks=1500, timeout=900),
+        thorough=dict(checks=20000, shards=16, timeout=3000),
+    ),
 }
